@@ -12,7 +12,7 @@
    state by C04_cost_checker_sound, not by induction over traces.  See docs/C04.md. *)
 From Coq Require Import Lia.
 From Coq Require Import Permutation.
-From Ctg Require Import Base Net BaseFacts NetFacts TreeState TreeStateFacts TreeStateInv.
+From Ctg Require Import Base Net BaseFacts NetFacts TreeState TreeStateFacts TreeStateInv TreeStatePre TreeStateMon.
 
 (* utils.MaxCounter: after ANY sequence of add/discard from empty, the counter holds exactly the
    multiset the sequence denotes and max() is the maximum of that multiset (None = -inf = empty) *)
@@ -105,8 +105,15 @@ Print Assumptions C04_remove_ind_former_witness_ok.
    size that satisfy the tree rule (what C04_anneal_rule_is_tree_rule delivers), _update_tracked,
    the cached getters get_legs (incl. the leaves-union fallback), get_involved, get_size, get_flops,
    contract_stats (precondition: the dfs traversal enumerates the keys of `children` -- a complete
-   tree -- and they all have info entries) and the contractor-cache events.  NOT yet proved:
-   total_flops / total_write / max_size (same argument as contract_stats), remove_ind, restore_ind, the recipe
+   tree -- and they all have info entries), the contractor-cache events, and (round 3) remove_ind
+   (precondition rm_pre: index not yet removed, its size positive, contract_stats' precondition, and
+   after the population phase every internal node of `info` is a key of `children` with legs,
+   involved, size, flops cached and "index in legs => index in involved"), the recipe getters
+   get_can_dot / get_inds / get_tensordot_axes / get_tensordot_perm / get_einsum_eq,
+   reset_contraction_indices, _reset_contraction_recipes, sort_contraction_indices (all priorities),
+   and total_flops / total_write / max_size when they do not have to recompute.  NOT yet proved:
+   restore_ind, and total_flops / total_write / max_size when they recompute (same argument as
+   contract_stats).  (The next lines are from round 2.)  Previously open: remove_ind, restore_ind, the recipe
    getters and sort/reset of contraction indices (these do not touch cost fields but are not
    covered by the statement).  Hence the `_partial` suffix. *)
 Theorem C04_prim_preserves_inv_partial : forall n, 2 <= NN n -> NoDup (output n) ->
@@ -147,7 +154,7 @@ Example C04_trace_nonvacuous :
   pre_trace ex_net (prim_pre ex_net) tr (init_state ex_net) /\ 2 <= NN ex_net /\ NoDup (output ex_net).
 Proof.
   cbn zeta. split; [|split; [vm_compute; lia|repeat constructor; cbn; intuition lia]].
-  cbn [pre_trace prim_pre prim_pre0].
+  cbn [pre_trace prim_pre prim_pre1 prim_pre0].
   repeat match goal with
   | |- _ /\ _ => split
   | |- pair_pre _ _ _ _ _ _ _ => unfold pair_pre
@@ -167,3 +174,61 @@ Proof.
   | |- _ = 1 \/ _ => right
   end.
 Qed.
+
+(* ---- round 3: the second sentence of C04 ------------------------------------------------- *)
+(* the per-node figures are a function of (children, SET of removed indices): any two states that
+   satisfy the invariant and agree on those report the same size, flops and legs (as index sets, with
+   the same dimension product) for every node -- whatever histories produced them *)
+Theorem C04_figures_function_of_children_and_removed_set : forall n, 2 <= NN n -> NoDup (output n) ->
+  forall s1 s2, InvC n s1 -> InvC n s2 -> children s1 = children s2 ->
+  (forall j, In j (removed (sliced s1)) <-> In j (removed (sliced s2))) ->
+  forall nd i1 i2, nget nd (info s1) = Some i1 -> nget nd (info s2) = Some i2 ->
+  (forall z1 z2, i_size i1 = Some z1 -> i_size i2 = Some z2 -> z1 = z2) /\
+  (forall z1 z2, i_flops i1 = Some z1 -> i_flops i2 = Some z2 -> z1 = z2) /\
+  (forall l1 l2, i_legs i1 = Some l1 -> i_legs i2 = Some l2 ->
+     size_of (szd n) (lkeys l1) = size_of (szd n) (lkeys l2) /\ forall j, In j (lkeys l1) <-> In j (lkeys l2)).
+Proof. exact figures_determined. Qed.
+Print Assumptions C04_figures_function_of_children_and_removed_set.
+
+(* slice_unslice_roundtrip, partial: if the sliced/projected indices are the same multiset again (in
+   any order of removal / restoration) and the tree is the same, the tracked totals and multiplicity are
+   the original ones.  PARTIAL because it needs InvC of BOTH states: InvC is proved to be preserved by
+   remove_ind and by every other primitive except restore_ind, so for a history that contains
+   restore_ind the hypothesis on the final state is certified per run (cost_inv_b), not proved. *)
+Theorem C04_slice_unslice_roundtrip_partial : forall n, 2 <= NN n -> NoDup (output n) ->
+  forall s1 s2, InvC n s1 -> InvC n s2 -> children s1 = children s2 ->
+  Permutation (sliced s1) (sliced s2) ->
+  (forall p, In p (nkeys (children s1)) -> nget p (info s1) <> None /\ nget p (info s2) <> None) ->
+  (trk_flops s1 = true -> trk_flops s2 = true -> flops_ s1 = flops_ s2) /\
+  (trk_write s1 = true -> trk_write s2 = true -> write_ s1 = write_ s2) /\
+  mult s1 = mult s2.
+Proof. exact totals_determined. Qed.
+Print Assumptions C04_slice_unslice_roundtrip_partial.
+
+(* ---- round 3: the preconditions are MONITORED ---------------------------------------------- *)
+(* prim_pre_b (Model/TreeStatePre.v) is an executable version of prim_pre; the harness evaluates it
+   inside Coq on every recorded primitive of every trace (mon_ok).  Soundness: *)
+Theorem C04_precondition_checker_sound : forall n, NoDup (output n) ->
+  forall p s, prim_pre_b n p s = true -> prim_pre n p s.
+Proof. exact prim_pre_b_sound. Qed.
+Print Assumptions C04_precondition_checker_sound.
+
+(* hence, with a purely boolean hypothesis on the trace: *)
+Theorem C04_checked_trace_from_fresh_tree : forall n, 2 <= NN n -> NoDup (output n) ->
+  forall tr, pre_trace_b n tr (init_state n) = true -> InvC n (run n tr (init_state n)).
+Proof. exact checked_trace_from_fresh. Qed.
+Print Assumptions C04_checked_trace_from_fresh_tree.
+
+(* non-vacuity: a build, stats, an annealing-style re-creation of the root with PRECOMPUTED cost and
+   size, slicing the output index a (the former defect), sorting the indices, deriving recipes: the
+   boolean precondition holds at every step, so the invariant holds at the end; and a wrong
+   precomputed size is rejected by the monitor *)
+Example C04_checked_trace_nonvacuous :
+  let tr := [PPair [0] [1] None None None; PPair [0;1] [2] None None None; PStats false;
+             PRemoveNode [0;1;2]; PPair [0;1] [2] None (Some 8%Z) (Some 4%Z);
+             PRemoveInd 0 None; PSortInds PrFlops true true false; PGet GEq [0;1;2]; PRemoveInd 2 (Some 1)] in
+  pre_trace_b ex_net tr (init_state ex_net) = true /\
+  cost_inv_b ex_net (run ex_net tr (init_state ex_net)) = true /\
+  prim_pre_b ex_net (PPair [0;1] [2] None (Some 8%Z) (Some 5%Z))
+     (run ex_net [PPair [0] [1] None None None] (init_state ex_net)) = false.
+Proof. vm_compute. repeat split; reflexivity. Qed.
